@@ -360,6 +360,7 @@ pub fn run_schedule(v: &serde_json::Value) -> String {
     let n = vusize(&v["n"]).max(1);
     let program: Vec<String> = v["program"].as_array().map(|a| a.iter().map(vstr).collect()).unwrap_or_default();
     let order: Vec<usize> = v["order"].as_array().map(|a| a.iter().map(vusize).collect()).unwrap_or_default();
+    let kinds: Vec<Vec<usize>> = v["kinds"].as_array().map(|a| a.iter().map(|r| r.as_array().map(|x| x.iter().map(vusize).collect()).unwrap_or_default()).collect()).unwrap_or_default();
     let base: Vec<u8> = vec![0, 7, 0x81, 0x80, 0, 1, 0, 1, 0, 0, 0, 0, 1, b'q', 0, 0, 1, 0, 1, 0xc0, 12, 0, 1, 0, 1, 0, 0, 0, 9, 0, 4, 1, 2, 3, 4];
     let mut go_tx = vec![];
     let (res_tx, res_rx) = channel::<String>();
@@ -370,6 +371,7 @@ pub fn run_schedule(v: &serde_json::Value) -> String {
         let res_tx = res_tx.clone();
         let program = program.clone();
         let base = base.clone();
+        let kinds = kinds.clone();
         handles.push(std::thread::spawn(move || {
             let table = dnssector::c_abi::fn_table();
             let mut pp = DNSSector::new(base.clone()).unwrap().parse().unwrap();
@@ -381,7 +383,12 @@ pub fn run_schedule(v: &serde_json::Value) -> String {
                     return;
                 }
                 let line = if a == "F" {
-                    let kind = (t - 1) * 2 + nfail;
+                    // which failure: distinct per thread and step by default, or as the scenario prescribes
+                    // (threads failing with identical descriptions)
+                    let kind = match kinds.get((t - 1) % kinds.len().max(1)) {
+                        Some(row) if !row.is_empty() => row[nfail % row.len()],
+                        _ => (t - 1) * 2 + nfail,
+                    };
                     nfail += 1;
                     let native = native_failure_text(&mut shadow, kind);
                     let ret = unsafe { failing_call(&table, &mut pp as *mut ParsedPacket, kind, &mut err) };
